@@ -788,7 +788,18 @@ class ContGen(WorldGen):
             cb = r.randrange(2)
             c = r.random()
             st = self.cmd[cb]
-            if c < 0.3:
+            if r.random() < 0.05 and not self.poisoned[w] and self.alive(w):
+                # a buffer that records nothing but empty bundles, replayed while reservations are outstanding: direct
+                # application (insert of the empty bundle) flushes them
+                self.emit(85, cb); self.cmd[cb] = dict(spawns=0, n=0); st = self.cmd[cb]
+                self.emit(10, w); self.add(w, False, (), reserved=True)
+                self.emit(11, w, 2); self.add(w, False, (), reserved=True, n=2)
+                for _ in range(r.randrange(1, 3)):
+                    i = r.choice(self.alive(w))
+                    self.emit(81, cb, [0, i], BEnc([r.choice([0, 2]), 0])); st["n"] += 1
+                self.emit(84, cb, w); self.materialise(w); self.cmd[cb] = dict(spawns=0, n=0)
+                self.probe(extra=1)
+            elif c < 0.3:
                 enc, ts, dup = self.bundle(allow_dup=r.random() < 0.03)
                 self.emit(80, cb, enc); st["spawns"] += 1; st["n"] += 1; st["dup"] = st.get("dup", False) or dup
             elif c < 0.5:
@@ -1193,3 +1204,9 @@ def gen_world_ids(tier, seed, universe=None):
     """real-thread supporting runs of engine 17 (concurrent World::new)"""
     for t, r in ([(4, 3000), (2, 4000), (3, 3000)] if tier == "quick" else [(4, 20000), (2, 20000), (3, 20000), (8, 10000)]):
         yield [17, t, r]
+
+
+def gen_reserve_stress(tier, seed, universe=None):
+    """real-thread reservation runs (engine 70): threads, reservations per thread, free-list size"""
+    for t, per, nfree in ([(4, 3000, 5), (8, 2000, 0), (3, 4000, 40)] if tier == "quick" else [(4, 20000, 5), (8, 20000, 0), (3, 20000, 40), (16, 5000, 3)]):
+        yield [70, t, per, nfree]
